@@ -4435,7 +4435,9 @@ void SymbolDatabase::printXml(std::ostream &out) const
 {
     std::string outs;
 
-    std::set<const Variable *> variables;
+    // variables in order of first occurrence (a pointer-ordered set would make the output depend on the heap layout)
+    std::vector<const Variable *> variables;
+    std::set<const Variable *> variablesSeen;
 
     // Scopes..
     outs += "  <scopes>\n";
@@ -4543,7 +4545,8 @@ void SymbolDatabase::printXml(std::ostream &out) const
                             outs += "\" variable=\"";
                             outs += id_string(arg);
                             outs += "\"/>\n";
-                            variables.insert(arg);
+                            if (variablesSeen.insert(arg).second)
+                                variables.push_back(arg);
                         }
                         outs += "        </function>\n";
                     }
@@ -4599,8 +4602,10 @@ void SymbolDatabase::printXml(std::ostream &out) const
     }
 
     // Variables..
-    for (const Variable *var : mVariableList)
-        variables.insert(var);
+    for (const Variable *var : mVariableList) {
+        if (variablesSeen.insert(var).second)
+            variables.push_back(var);
+    }
     outs += "  <variables>\n";
     for (const Variable *var : variables) {
         if (!var)
